@@ -33,7 +33,7 @@ async fn run_case(c: Case, irr_port: u16) -> Value {
     if c.op != "none" {
         faults.push((c.op.clone(), c.occ, c.kind.clone()));
     }
-    let script = Script { running: e2e::running_config(&managed), faults, fail_connections: vec![], ephemeral_name: "bgpfu".into() };
+    let script = Script { running: e2e::running_config(&managed), faults, fail_connections: vec![], ephemeral_name: "bgpfu".into(), chunk: 0 };
     let junos = match FakeJunos::start(script, Config::default()).await {
         Ok(j) => j,
         Err(e) => return json!({"harness_error": format!("fake junos: {e}")}),
@@ -124,9 +124,9 @@ pub fn run(cfg: &Cfg) -> i32 {
     let thorough = cfg.thorough();
     let ns: Vec<usize> = if thorough { vec![0, 1, 2, 3, 5] } else { vec![0, 2] };
     let kinds: Vec<FaultKind> = if thorough {
-        vec![FaultKind::RpcError, FaultKind::WarningThenOk, FaultKind::NoPositive, FaultKind::NotXml, FaultKind::Truncated, FaultKind::WrongMessageId, FaultKind::CloseBefore, FaultKind::CloseAfter, FaultKind::StallThenClose, FaultKind::DelayedRpcError, FaultKind::ErrorThenOk]
+        vec![FaultKind::RpcError, FaultKind::WarningThenOk, FaultKind::NoPositive, FaultKind::NotXml, FaultKind::Truncated, FaultKind::WrongMessageId, FaultKind::CloseBefore, FaultKind::CloseAfter, FaultKind::StallThenClose, FaultKind::DelayedRpcError, FaultKind::ErrorThenOk, FaultKind::ErrorWarningThenOk]
     } else {
-        vec![FaultKind::RpcError, FaultKind::NoPositive, FaultKind::WrongMessageId, FaultKind::CloseBefore, FaultKind::DelayedRpcError, FaultKind::ErrorThenOk]
+        vec![FaultKind::RpcError, FaultKind::NoPositive, FaultKind::WrongMessageId, FaultKind::CloseBefore, FaultKind::DelayedRpcError, FaultKind::ErrorThenOk, FaultKind::ErrorWarningThenOk]
     };
     let mut cases: Vec<Case> = Vec::new();
     for &n in &ns {
@@ -139,7 +139,7 @@ pub fn run(cfg: &Cfg) -> i32 {
         for (op, occ) in positions {
             for kind in &kinds {
                 let applicable = match kind {
-                    FaultKind::ErrorThenOk | FaultKind::DelayedRpcError => op == "load-configuration",
+                    FaultKind::ErrorThenOk | FaultKind::ErrorWarningThenOk | FaultKind::DelayedRpcError => op == "load-configuration",
                     FaultKind::RpcError | FaultKind::WarningThenOk | FaultKind::NoPositive | FaultKind::WrongMessageId | FaultKind::CloseAfter => op != "hello",
                     _ => true,
                 };
@@ -223,5 +223,84 @@ pub fn run(cfg: &Cfg) -> i32 {
     }
     rep.exhaustive = Some(true);
     rep.extra.insert("matrix".into(), json!({"loads": ns, "kinds": kinds.iter().map(FaultKind::name).collect::<Vec<_>>()}));
+    rep.finish()
+}
+
+
+/// C07, agent level: the peer closes (or stalls, then closes) at every request index; the agent
+/// must come back with an error, neither hang nor spin.
+pub fn run_c07_agent(cfg: &Cfg) -> i32 {
+    let mut rep = Report::new(
+        "C07",
+        cfg,
+        "one evaluation = one run of the real agent binary against a fake Junos that closes the TLS connection before the hello, inside a truncated reply, or instead of replying, at every position of the request sequence; the agent must exit with an error within the watchdog;          distinct = distinct (loads, position, close kind); non-trivial = all",
+    );
+    if !std::path::Path::new(&e2e::agent_bin()).exists() {
+        eprintln!("agent binary not built");
+        return 2;
+    }
+    let ns: Vec<usize> = if cfg.thorough() { vec![0, 1, 3] } else { vec![2] };
+    let kinds = [FaultKind::CloseBefore, FaultKind::Truncated, FaultKind::StallThenClose];
+    let mut cases = Vec::new();
+    for &n in &ns {
+        let mut positions: Vec<(String, usize)> = vec![("hello".into(), 0), ("open-configuration".into(), 0), ("get-config".into(), 0), ("get-config".into(), 1)];
+        for k in 0..n {
+            positions.push(("load-configuration".into(), k));
+        }
+        positions.extend([("commit-configuration".into(), 0), ("close-configuration".into(), 0), ("close-session".into(), 0)]);
+        for (op, occ) in positions {
+            for kind in &kinds {
+                cases.push(Case { n, op: op.clone(), occ, kind: kind.clone() });
+            }
+        }
+    }
+    let irr = match Server::start(simple_db(6), Faults::default()) {
+        Ok(s) => s,
+        Err(e) => {
+            eprintln!("fake irrd: {e}");
+            return 2;
+        }
+    };
+    let irr_port = irr.port();
+    let rt = tokio::runtime::Builder::new_multi_thread().worker_threads(8).enable_all().build().expect("runtime");
+    let results: Vec<(Case, Value)> = rt.block_on(async {
+        let sem = Arc::new(tokio::sync::Semaphore::new(12));
+        let mut set = tokio::task::JoinSet::new();
+        for c in cases {
+            let sem = sem.clone();
+            set.spawn(async move {
+                let _p = sem.acquire_owned().await;
+                let r = run_case(c.clone(), irr_port).await;
+                (c, r)
+            });
+        }
+        let mut out = Vec::new();
+        while let Some(r) = set.join_next().await {
+            if let Ok(x) = r {
+                out.push(x);
+            }
+        }
+        out
+    });
+    irr.stop();
+    for (c, r) in &results {
+        let key = format!("{}|{}|{}|{}", c.n, c.op, c.occ, c.kind.name());
+        rep.case(Some(key.as_bytes()));
+        let wit = || json!({"case": {"loads": c.n, "close_at": format!("{}#{}", c.op, c.occ), "how": c.kind.name()}, "run": r, "seed": cfg.seed});
+        if r["timed_out"].as_bool().unwrap_or(false) {
+            let cpu = r["cpu_s"].as_f64().unwrap_or(0.0);
+            let wall = r["wall_s"].as_f64().unwrap_or(1.0);
+            let what = if cpu > 0.8 * wall { "spin" } else { "hang" };
+            rep.violation(&format!("agent:{}:{}:{what}", c.op, c.kind.name()), &format!("the agent did not exit within {wall:.0}s after the peer closed (cpu {cpu:.1}s)"), wit());
+        } else if r["exit"].as_i64() == Some(0) {
+            rep.violation(&format!("agent:{}:{}:reported-success", c.op, c.kind.name()), "the agent reported success although the peer disconnected", wit());
+        } else {
+            rep.count("agent_exited_with_error");
+            rep.count_n("wall_ms_total", (r["wall_s"].as_f64().unwrap_or(0.0) * 1000.0) as u64);
+        }
+        if rep.samples.len() < rep.max_samples {
+            rep.sample(json!({"close_at": format!("{}#{}", c.op, c.occ), "how": c.kind.name(), "exit": r["exit"], "wall_s": r["wall_s"], "stderr_tail": r["stderr_tail"]}));
+        }
+    }
     rep.finish()
 }
